@@ -124,7 +124,7 @@ def cmd_check(names, tier="quick", props=None, seed="1"):
                 for line in rr.stdout.splitlines():
                     if line.startswith("violation detail:"):
                         sig = line[len("violation detail:"):].strip()[:200]
-                res[f"{prop}:{tier}"] = {"rc": rr.returncode, "wall_s": round(time.time() - t0, 1), "signature": sig}
+                res[f"{prop}:{tier}" + ("" if seed == "1" else f":seed{seed}")] = {"rc": rr.returncode, "wall_s": round(time.time() - t0, 1), "signature": sig}
                 print(name, prop, tier, "rc", rr.returncode, round(time.time() - t0, 1), sig[:120], (rr.stdout + rr.stderr)[-200:] if rr.returncode == 2 else "")
             save_meta(name, meta)
         finally:
@@ -207,5 +207,8 @@ if __name__ == "__main__":
             i = args.index("--tier"); tier = args[i + 1]; del args[i:i + 2]
         if "--props" in args:
             i = args.index("--props"); props = args[i + 1].split(","); del args[i:i + 2]
-        cmd_check(args, tier, props)
+        seed = "1"
+        if "--seed" in args:  # a different seed shows which detections depend on the luck of one generated case
+            i = args.index("--seed"); seed = args[i + 1]; del args[i:i + 2]
+        cmd_check(args, tier, props, seed)
     cmd_table()
